@@ -3,7 +3,7 @@
 //! malformed texts without panic.
 //!
 //! Space: identifiers from a fixed list (reserved, percent and non-ASCII characters in localparts and
-//! event ids) x {matrix:, matrix.to} x via lists of length 0..3 (with repeats) x action {absent, present};
+//! event ids, localparts that begin with further sigil characters) x {matrix:, matrix.to} x via lists of length 0..3 (with repeats) x action {absent, present};
 //! texts: every string over a 9-symbol alphabet of URI fragments up to length 4 appended to both bases.
 use serde_json::{json, Value};
 
@@ -17,10 +17,10 @@ fn fail(v: &mut Vec<Value>, x: Value) {
 }
 
 pub fn run(_tier: &str) -> Report {
-    let rooms = ["!r:b.org", "!r/x:b.org", "!r%41:b.org", "!r?q#f:b.org", "!r\u{e9}:b.org", "!r x:b.org", "!%2F:b.org", "!a+b:b.org"];
-    let aliases = ["#a:b.org", "#a/b:b.org", "#a%41:b.org", "#a?#:b.org", "#\u{e9}\u{1F600}:b.org", "#a&b=c:b.org"];
-    let users = ["@u:b.org", "@u/v:b.org", "@u%2f:b.org", "@u=+.-_:b.org"];
-    let events = ["$e:b.org", "$acR1l0raoZnm60CBwAVgqbZqoO/mYU81xysh1u7XcJk", "$a%2Fb", "$a?b#c", "$a+b"];
+    let rooms = ["!r:b.org", "!r/x:b.org", "!r%41:b.org", "!r?q#f:b.org", "!r\u{e9}:b.org", "!r x:b.org", "!%2F:b.org", "!a+b:b.org", "!!r:b.org", "!$o:b.org", "!#@!$:b.org"];
+    let aliases = ["#a:b.org", "#a/b:b.org", "#a%41:b.org", "#a?#:b.org", "#\u{e9}\u{1F600}:b.org", "#a&b=c:b.org", "##rust:b.org", "#@a:b.org", "#!$#:b.org"];
+    let users = ["@u:b.org", "@u/v:b.org", "@u%2f:b.org", "@u=+.-_:b.org", "@!bang:b.org", "@@u:b.org", "@#$:b.org"];
+    let events = ["$e:b.org", "$acR1l0raoZnm60CBwAVgqbZqoO/mYU81xysh1u7XcJk", "$a%2Fb", "$a?b#c", "$a+b", "$$Rq", "$!x:b.org", "$#@a"];
     let vias: [&[&str]; 5] = [&[], &["a.org"], &["a.org", "b.org"], &["a.org", "a.org"], &["a.org", "b.org", "a.org"]];
     let mut cases_n = 0u64;
     let mut f_rt = vec![];
